@@ -244,6 +244,58 @@ def documents(ctx, n):
     return cmp_n + nl
 
 
+BLOCK_TEXTS = [
+    ("s: |\n  first\n  \tsecond line starts with a tab\n  third\nn: 1\n", {'s': 'first\n\tsecond line starts with a tab\nthird\n', 'n': 1}),
+    ("recipe: |-\n  all:\n  \tcc -o x x.c\n  \t\tdeeper\nm: {a: 1}\n", {'recipe': 'all:\n\tcc -o x x.c\n\t\tdeeper', 'm': {'a': 1}}),
+    ("l:\n  - |\n    a\n    \tb\n    c\td\n  - plain\n", {'l': ['a\n\tb\nc\td\n', 'plain']}),
+    ("outer:\n  inner: |+\n    x\n     one more space\n    \ttab\n\nlast: 2\n", {'outer': {'inner': 'x\n one more space\n\ttab\n\n'}, 'last': 2}),
+    ("q: \"tab\\there\"\nr: 'raw\ttab'\n", {'q': 'tab\there', 'r': 'raw\ttab'}),
+]
+
+
+def wide_and_blocks(ctx):
+    """(a) block scalars whose content lines start with a tab, contain tabs, are more indented (content, not layout), next to the
+    same strings written with escapes; (b) documents that are WIDE rather than deep: a struct of 70 / 150 / 300 entries whose last
+    entries hold structs and lists, a list of 130 / 400 scalars followed by nested lists, a template with 120 resources. Every
+    loader, every spelling: the loaded value is the document."""
+    import yaml
+    ops, meta = [], []
+    for text, want in BLOCK_TEXTS:
+        if yaml.safe_load(text) != want:
+            raise ToolingError('block-scalar fixture disagrees with its expected value: %r' % text)
+        for name, tx in (('block-yaml', text), ('json', json.dumps(want)), ('flow-yaml-escaped', json.dumps(want, ensure_ascii=True))):
+            for ld in ('cli', 'test', 'lib'):
+                ops.append({'op': 'doc', 'data': tx, 'loader': ld}); meta.append((name, ld, tx, want))
+    wides = []
+    for n_ in (70, 150, 300):
+        d = {'k%03d' % i: (i if i % 3 else 's%d' % i) for i in range(n_)}
+        d['zz_map'] = {'a': [1, {'b': 2}], 'c': {}}
+        d['zz_list'] = [[1], [2, [3]], {'x': []}]
+        wides.append(d)
+    for n_ in (130, 400):
+        wides.append({'l': list(range(n_)) + [[1, 2], {'k': [3]}], 'after': {'m': 1}})
+        wides.append(list(range(n_)) + [[1, [2]], {'k': {'j': 1}}])
+    wides.append({'Resources': {'r%03d' % i: {'Type': 'AWS::S3::Bucket', 'Properties': {'Size': i, 'Tags': [{'Key': 'k', 'Value': 'v'}]}} for i in range(120)}, 'Outputs': {'o': {'Value': 1}}})
+    for d in wides:
+        for name, tx in (('json-compact', json.dumps(d)), ('json-pretty', json.dumps(d, indent=1)), ('block-yaml', yaml.safe_dump(d, default_flow_style=False, sort_keys=False)),
+                         ('flow-yaml', yaml.safe_dump(d, default_flow_style=True, width=10**6, sort_keys=False))):
+            for ld in ('cli', 'test', 'lib'):
+                ops.append({'op': 'doc', 'data': tx, 'loader': ld}); meta.append((name, ld, tx, d))
+    res = impl.run_ops_parallel(ops, ctx.wd, 'c11wide')
+    n = 0
+    for (name, ld, tx, want), r in zip(meta, res):
+        n += 1
+        rr = r.get('res')
+        info = {'class': 'document-loading', 'serialisation': name, 'loader': ld, 'text': tx[:600], 'entries': len(want) if hasattr(want, '__len__') else None}
+        if not rr or rr[0] != 'Ok':
+            ctx.failing('%s loader rejects the %s form of a %s document: %s' % (ld, name, 'wide' if len(tx) > 400 else 'block-scalar', str(rr)[:160]), info, found=True)
+        elif strip_dump(rr[1]) != of_python(want):
+            ctx.failing('%s loader, %s form: the loaded value differs from the document' % (ld, name), dict(info, loaded=str(strip_dump(rr[1]))[:400], expected=str(of_python(want))[:400]), found=True)
+    ctx.coverage['wide_and_block_scalar_loadings'] = n
+    ctx.coverage['evaluations'] += n
+    return n
+
+
 def core_tags(ctx):
     """explicit core-schema tags on scalars whose text is of another class (`!!float 3`, `!!int "12"`, `!!str 5`) and on text
     the tag cannot read (`!!int 1.5`, `!!bool 5`): the three loaders give the same typed value, or all reject the document"""
@@ -361,7 +413,7 @@ def run(ctx):
     ctx.build()
     pr = ctx.proofs('C11')
     thorough = ctx.tier == 'thorough'
-    n = classify_universe(ctx) + loaders_on_scalars(ctx) + documents(ctx, 400 if thorough else 60) + tags(ctx) + core_tags(ctx) + rejects(ctx)
+    n = classify_universe(ctx) + loaders_on_scalars(ctx) + documents(ctx, 400 if thorough else 60) + tags(ctx) + core_tags(ctx) + rejects(ctx) + wide_and_blocks(ctx)
     ctx.coverage['distinct_nontrivial'] = n
     ctx.coverage['rule'] = ('a universe of %d scalar spellings (plain / single / double quoted) through every loader; generated documents in 5 serialisations x 3 loaders; every tag of the '
                             'regenerated tables x {scalar, sequence, nested} x 3 loaders, short vs long form; 13 malformed or non-string-key texts' % len(PLAIN_UNIVERSE))
